@@ -75,7 +75,12 @@ func VerifHarness_C04_control_connection_close() {
 	vAssume(err == nil)
 	remote := allocation.VTCPAddr4()
 	conn := &allocation.VConn{Remote: remote, Local: local}
-	l := &allocation.VListener{Address: local, Script: []net.Conn{conn}}
+	// the listener may be bound to a wildcard address: the 5-tuple is that of the CONNECTION (its local address)
+	var lnAddr net.Addr = local
+	if vBool() {
+		lnAddr = &net.TCPAddr{IP: net.IP{0, 0, 0, 0}, Port: local.Port}
+	}
+	l := &allocation.VListener{Address: lnAddr, Script: []net.Conn{conn}}
 	first := vSpawnCount()
 	s.readListener(l, env.M)
 	for i := first; i < vSpawnCount(); i++ {
